@@ -17,7 +17,7 @@ LDFLAGS_plain :=
 LDFLAGS_asan  := -fsanitize=address
 LDFLAGS_full  :=
 
-WRAPS := pthread_create pthread_key_create syscall sem_init sem_destroy sem_post sem_wait sem_timedwait \
+WRAPS := pthread_create pthread_exit sigsuspend pthread_key_create syscall sem_init sem_destroy sem_post sem_wait sem_timedwait \
 	clock_gettime gettimeofday usleep sleep sched_yield epoll_wait epoll_ctl eventfd_write eventfd_read \
 	read write pread pwrite close timerfd_create timerfd_settime signalfd open calloc posix_memalign
 WRAPFLAGS := $(foreach w,$(WRAPS),-Wl,--wrap=$(w))
